@@ -1036,10 +1036,15 @@ class String2Key(Field):
         if self.specifier == String2KeyType.Iterated and self.count > len(hsalt + hpass):
             count = self.count
 
-        hcount = (count // len(hsalt + hpass))
-        hleft = count - (hcount * len(hsalt + hpass))
+        if count > 0:
+            hcount = (count // len(hsalt + hpass))
+            hleft = count - (hcount * len(hsalt + hpass))
 
-        hashdata = ((hsalt + hpass) * hcount) + (hsalt + hpass)[:hleft]
+            hashdata = ((hsalt + hpass) * hcount) + (hsalt + hpass)[:hleft]
+
+        else:
+            # simple S2K of an empty passphrase: nothing but the preload octets is hashed
+            hashdata = b''
 
         h = []
         for i in range(0, ctx):
